@@ -31,7 +31,9 @@ ElfParamsSet ==
   \cup UNION { { [n |-> n, es |-> es, shndx |-> sh, slen |-> es * n, rot |-> rot, atEnd |-> FALSE, strbad |-> TRUE]
                 : sh \in 0..(n - 1), rot \in ElfRots } : n \in 1..MaxN, es \in {40, 64} }
 ElfTag(p) ==
-  LET body == Concat([i \in 1..p.n |-> ElfEntryBytesA(p.es, i - 1, p.rot, i - 1 = p.shndx, IF p.strbad THEN BadAddr ELSE ExtAddr)])
+  \* (with a reserved string-table index the link word of entry 0 - what an "extended index" scheme would consult - is 0)
+  LET lk(b, i) == IF p.shndx >= 65280 /\ i = 1 /\ p.es \in {40, 64} THEN Override(b, IF p.es = 40 THEN 24 ELSE 40, <<0, 0, 0, 0>>) ELSE b
+      body == Concat([i \in 1..p.n |-> lk(ElfEntryBytesA(p.es, i - 1, p.rot, i - 1 = p.shndx, IF p.strbad THEN BadAddr ELSE ExtAddr), i)])
       sec == [j \in 1..p.slen |-> IF j <= Len(body) THEN body[j] ELSE FillA(j)] IN
   U32Bytes(9) \o U32Bytes(20 + p.slen) \o U32Bytes(p.n) \o U32Bytes(p.es) \o U32Bytes(p.shndx) \o sec
 ElfNamesOk(p) == p.es \in {40, 64} /\ p.shndx < p.n /\ p.es * p.n <= p.slen
